@@ -3,6 +3,8 @@ import AkVerif.Lemmas.LLFactAll
 import AkVerif.Lemmas.LLTable2
 import AkVerif.Lemmas.LLC03
 import AkVerif.Lemmas.LLFuel
+import AkVerif.Lemmas.LLLeast
+import AkVerif.Lemmas.LLLl1Final
 /-!
 # C02 — conflict-free (LL(1)) grammars are parsed exactly
 
@@ -29,6 +31,21 @@ theorem sets_closed {σ : Type} [DecidableEq σ] (G : Prods σ) (terms nulls : L
     Closed (cfgOf terms T suffix) { prods := gramRules G } (setsOf nulls first follow)
       ∧ (setsOf nulls first follow).W start endS = true :=
   model_closed suffix hnd hdisj hN hF hW hT hamb
+
+/-- **The computed FIRST and FOLLOW sets are exact** (least solutions, not merely closed): for a
+constructed parser, `t` is in the computed FIRST set of `X` iff `First` derives it (`First`: the least
+relation with "a rule `X → α s β`, `α` nullable, `s` a terminal or `First s t`"), and `t` is in the computed
+FOLLOW set of `X` iff `Follow` derives it (`$END$` after the start symbol; FIRST of what follows an
+occurrence; FOLLOW of the left-hand side when what follows is nullable).  In particular no spurious
+element is ever stored (the defect repaired by 6b1a6af was exactly such an element). -/
+theorem sets_exact (inp : CtorIn) (P : Parser) (hP : construct inp = .ok P) (X t : Sym) :
+    ((∃ f, dget X P.first = some f ∧ t ∈ f) ↔ First P.prods P.terminals P.nullables X t) ∧
+    ((∃ w, dget X P.follow = some w ∧ t ∈ w) ↔
+        Follow P.prods P.terminals P.nullables P.first P.start endSym X t) := by
+  have hB := construct_built hP
+  have h1 := verifyPart1_ok hB.hV
+  have hnt := lst_nulls_not_terms hB.hN (fun k hk => h1.disjoint k hk)
+  exact ⟨firstSets_exact hB.hFi hnt X t, followSets_exact hB.hFo hnt X t⟩
 
 /-- **The fuel of the three fixpoint loops always suffices**: none of them ever answers `outOfFuel`
 (nullables: `|G| + 2` passes; FIRST and the FOLLOW closure: `|G|·(|terminals|+1) + 2` passes — each
@@ -115,24 +132,67 @@ theorem smart_indep (inp : CtorIn) (P1 P2 : Parser)
   rw [exact _ P1 h1 hstart ha1 raw hEnd, exact _ P2 h2 hstart ha2 raw (etok ▸ hEnd),
     eU, eT, eS, etok]
 
-/-- **LL(1)-as-written ⟹ not ambiguous — partial.**
-Full statement (kept visible, *not* proved): "if for every symbol of the *user's* grammar the
-predict sets of its alternatives, computed from the least nullable/FIRST/FOLLOW sets, are pairwise
-disjoint, then `is_ambiguous()` is False (both `smart_factorization` values)".
-Proved here: `is_ambiguous()` is False **iff** for every key of the *factorised* dictionary the predict
-sets of its rules **as the constructor computes them** (`startSyms` from the computed sets) are
-pairwise disjoint — i.e. the conflict report is exact w.r.t. the computed sets of the factorised
-grammar.  Missing for the full statement: (1) the computed sets are the least sets (only closure and,
-for nullables, soundness are proved), (2) disjointness of the user's alternatives implies disjointness
-for the rules of the factorised dictionary (a group rule's predict set is the union of its
-members').  This clause is therefore backed by the correspondence and the oracle (independent
-FIRST/FOLLOW computation on the user's grammar). -/
-theorem ll1_as_written_unambiguous_partial (inp : CtorIn) (P : Parser) (hP : construct inp = .ok P) :
+/-- **The conflict report is exact**: `is_ambiguous()` is False **iff** for every key of the factorised
+dictionary the predict sets of its rules, as the constructor computes them (`startSyms`), are pairwise
+disjoint. -/
+theorem conflict_report_exact (inp : CtorIn) (P : Parser) (hP : construct inp = .ok P) :
     isAmbiguous P.table = false ↔
       ∀ A rules, (A, rules) ∈ P.prods →
         rules.Pairwise (PredDisjoint P.terminals P.nullables P.first P.follow A) := by
   have hB := construct_built hP
   exact not_ambiguous_iff_disjoint (built_struct hB).1 hB.hT
+
+/-- **A grammar that is LL(1) as written is reported as not ambiguous** (both `smart_factorization`
+values).  "LL(1) as written": for every symbol of the *user's* productions the predict sets of its
+alternatives are pairwise disjoint, the sets being computed by the model's nullable / FIRST / FOLLOW
+functions on the user's dictionary — proved to be the least sets (`sets_exact`, `LL.nullables_least`).
+Hypotheses: the start symbol is a key of `productions`; every key has at least one alternative
+(`hne`; without it the statement is false, see the example below).
+Ingredients: exactness of the computed sets for both dictionaries; FIRST/FOLLOW/nullable of the
+factorised dictionary are contained in those of the user's dictionary (helpers read through their
+expansions); the *ordered* identity `C01.factorize_ordered` (different rules of a key cover disjoint
+ranges of the user's alternatives); "a symbol with rules is nullable or has a non-empty FIRST" for
+non-left-recursive grammars (so the common prefix of a factorised group is nullable whenever its
+members are to be distinguished by the remainder). -/
+theorem ll1_as_written_unambiguous (inp : CtorIn) (P : Parser) (hP : construct inp = .ok P)
+    (NU : List Sym) (FU WU : SetMap Sym)
+    (hNU : nullables P.userProds = .ok NU)
+    (hFU : firstSets P.terminals NU P.userProds = .ok FU)
+    (hWU : followSets P.terminals NU FU P.userProds P.start endSym = .ok WU)
+    (hne : ∀ X rules, (X, rules) ∈ P.userProds → rules ≠ [])
+    (hstart : inp.start ∈ inp.prods.map (·.1))
+    (hLL1 : ∀ X rules, (X, rules) ∈ P.userProds →
+        rules.Pairwise (PredDisjoint P.terminals NU FU WU X)) :
+    isAmbiguous P.table = false :=
+  ll1_unambiguous hP hNU hFU hWU hne hstart hLL1
+
+/-! `hne` cannot be dropped — and the real parser behaves like the model: in
+`E → X b ; X → Z a | Z a b ; Z → (no alternatives)` both alternatives of `X` have an empty predict set
+(`Z` derives nothing), so the grammar is LL(1) as written, yet the factorised `X__S00 → ε | b` conflicts
+on `b` (`b` follows `X`) and `is_ambiguous()` is True. -/
+def noAltInp : CtorIn :=
+  { groups := ["SPACE".toList, "a".toList, "b".toList], syn := [], kw := [], skip := none,
+    start := "E".toList,
+    prods := [("E".toList, [["X".toList, "b".toList]]),
+              ("X".toList, [["Z".toList, "a".toList], ["Z".toList, "a".toList, "b".toList]]),
+              ("Z".toList, [])],
+    smart := false }
+
+example : (match construct noAltInp with
+    | .ok P =>
+      isAmbiguous P.table &&
+      (match nullables P.userProds with
+       | .ok NU => (match firstSets P.terminals NU P.userProds with
+         | .ok FU => (match followSets P.terminals NU FU P.userProds P.start endSym with
+           | .ok WU =>
+             decide (startSyms P.terminals NU FU WU (parseSym "X".toList)
+                      (["Z".toList, "a".toList].map parseSym) [] = Except.ok []) &&
+             decide (startSyms P.terminals NU FU WU (parseSym "X".toList)
+                      (["Z".toList, "a".toList, "b".toList].map parseSym) [] = Except.ok [])
+           | .error _ => false)
+         | .error _ => false)
+       | .error _ => false)
+    | .error _ => false) = true := by decide +kernel
 
 /-! Non-vacuity: `E → a E b | c` is LL(1): the constructor reports no ambiguity, `a a c b b` is
 accepted, `a c` is rejected with `ParsingError` (kernel evaluation, both settings agree). -/
